@@ -2,7 +2,7 @@
 locale / encoding settings the parent chose for this process (e.g. LC_ALL=C PYTHONUTF8=0).
 
 usage: python -m verif.certchild <manifest.json>   (prints one JSON line)
-manifest: {"root1": hex, "root2": pem, "docs": [{"id": ..., "path": ...}]}
+manifest: {"root1": hex, "root2": pem, "owned": bool, "t0": iso, "docs": [{"id": ..., "path": ...}]}
 """
 import json
 import locale
@@ -10,10 +10,12 @@ import sys
 
 
 def main(argv):
+    from datetime import datetime, timezone
     from .certharness import CertImpl, norm_result
-    from .gen.certs import T0
     man = json.load(open(argv[0], encoding="ascii"))
     impl = CertImpl()
+    impl.owned = bool(man.get("owned", True))
+    T0 = datetime.strptime(man["t0"], "%Y-%m-%dT%H:%M:%S").replace(tzinfo=timezone.utc)
     out = {"encoding": locale.getpreferredencoding(False), "utf8_mode": sys.flags.utf8_mode, "docs": {}}
 
     def validate(cert):
